@@ -28,7 +28,8 @@ enum SutKind {            /* how the class of a state is written */
 	K_INJ1, K_INJ2, K_INJ3,/* FSM::StateT<Inj<1..k>> and defines every callback itself            */
 	K_PARTIAL,            /* defines entryGuard, enter, exit, update, postReact only              */
 	K_NONE,               /* (root only) PeerRoot: there is no root head class                    */
-	K_INJ1N               /* FSM::StateT<Inj<1>> that defines no callback itself (only the injection) */
+	K_INJ1N,              /* FSM::StateT<Inj<1>> that defines no callback itself (only the injection) */
+	K_PARTIAL2            /* defines exitGuard, reenter, preUpdate, react, query only                */
 };
 
 enum SutPayloadKind { P_VOID, P_U8, P_I32, P_F64, P_C3, P_B24, P_A16, P_A32 };
@@ -130,6 +131,11 @@ void  sut_change_to(void* inst, int dest);
 int   sut_change_with(void* inst, int dest, const uint8_t* payload);
 void  sut_immediate_change_to(void* inst, int dest);
 int   sut_immediate_change_with(void* inst, int dest, const uint8_t* payload);
+/* `typed` != 0: use the template form (changeTo<T>(), succeed<T>(), plan.change<TOrigin>(dest) ...) where the build provides the dispatch table */
+int   sut_typed_available(void);
+int   sut_change_to_typed(void* inst, int dest, int immediate, const uint8_t* payload_or_null);
+int   sut_report_typed(void* inst, int id, int success);
+int   sut_plan_append_typed(void* inst, int o, int d, const uint8_t* payload_or_null);
 int   sut_succeed(void* inst, int id);
 int   sut_fail(void* inst, int id);
 int   sut_plan_append(void* inst, int o, int d);
